@@ -90,4 +90,16 @@ def c12(tier, seed):
         bounds=BOUNDS, per_entry_expect=lambda e: ("9003", "9004"))
 
 
-PROPS = {"C13": c13, "C11": c11, "C12": c12, "C04": c04, "C05": c05, "C03": c03, "C09": c09}
+def c10(tier, seed):
+    from harness import props
+    text, names = props.gen_poison(tier)
+    return checks.run_mirsym_property(
+        "C10", tier, seed, {"h_poison.rs": text}, codes("M_POISON_MODEL", "M_LEAK", "M_BAD_RELEASE", "M_KEY_MODEL", "M_NOT_ALL_HELD", "M_TRY_VERDICT"),
+        assumptions=sys_assumptions + [
+            "three-valued reference model per wrapper: must-be-poisoned after a panic during an exclusive hold (own guard / own scoped / guard or scoped call of a containing collection) since the last clear_poison; may after a panic during a shared hold only (the statement leaves it open); must-not otherwise",
+            "histories: hold A (fixed route, symbolic panic) ; optional clear ; hold B (symbolic route, symbolic panic) ; optional clear ; then lock/try_lock/scoped_lock/read/scoped_read and the containing collection's guard and scoped call are compared with the model"],
+        bounds={"history_length": "2 holds + 2 optional clears + 5..7 observing acquisitions", "wrappers": list(props.POIS_SHAPES),
+                "routes": list(props.ROUTE_IDS)})
+
+
+PROPS = {"C13": c13, "C10": c10, "C11": c11, "C12": c12, "C04": c04, "C05": c05, "C03": c03, "C09": c09}
